@@ -12,7 +12,7 @@ ASSUMPTIONS = ['operation sequences up to length 3 over {evaluate at order k, up
                'data-dependent branches (none in the unchanged code) are explored by the path explorer', 'UF = bit-identity on Eigen scalar paths']
 FUNCTIONS = ['PPolyND::update/initializeInternal', 'invalidateDerivativeCaches', 'ensureDerivativeCoefficients/buildDerivativeCoefficients', 'ensureDerivativeFactorTable/buildDynamicDerivativeFactorTable',
              'copy constructor / copy assignment (implicit)', 'derivative()', 'Segment::evaluate', 'evaluate(t,k)', 'Spline::update -> initializePPoly -> getTrajectory()']
-OUTSIDE = ['sequences longer than 3', 'coefficient counts other than {4,9,12} / {4,5,6} and segment counts other than {1,2,3}']
+OUTSIDE = ['sequences longer than 3 (4 for the dynamic 2-D type in the thorough tier)', 'coefficient counts other than {4,9,12} / {4,5,6} and segment counts other than {1,2,3}']
 HARD_TIMEOUT = {'quick': 900, 'thorough': 3000}
 
 TYPES = {'2dyn': (2, -1), '3f6': (3, 6), '1f12': (1, 12)}
@@ -24,7 +24,7 @@ OPS = ['E0', 'E1', 'E2', 'Us', 'Ug', 'Uc', 'Ud', 'Ub', 'CP', 'AS', 'DV', 'EG']
 
 
 def bounds(tier):
-    return {'types': {k: list(v) for k, v in TYPES.items()}, 'shapes': SHAPES, 'alphabet': OPS, 'max sequence length': 3 if tier == 'thorough' else '3 (2dyn), 2 (others)',
+    return {'types': {k: list(v) for k, v in TYPES.items()}, 'shapes': SHAPES, 'alphabet': OPS, 'max sequence length': '4 (2dyn), 3 (others)' if tier == 'thorough' else '3 (2dyn), 2 (others)',
             'spline objects': 'construct, evaluate, update (same N / other N), evaluate, for orders 3/5/7 DIM 2'}
 
 
@@ -37,6 +37,8 @@ def tasks(tier, seed):
     to = 60
     for ty in TYPES:
         L = 3 if (ty == '2dyn' or tier == 'thorough') else 2
+        if tier == 'thorough' and ty == '2dyn':
+            L = 4
         seqs = []
         for n in range(1, L + 1):
             seqs += list(itertools.product(OPS, repeat=n))
